@@ -44,8 +44,11 @@ CONSTANT Bug
 MathObj == [k |-> "obj", name |-> "math"]
 LogFn   == [k |-> "fn", name |-> "log"]
 TupV(s) == [k |-> "tup", items |-> s]
+\* (round 4) f: the table function of Eval.tla (FnApply: affine in its positional and keyword
+\* arguments), o1: an object with constant numeric attributes
 Pt(xv, yv, zv, a0v, a1v) ==
-    [x |-> xv, y |-> yv, z |-> zv, a |-> TupV(<< a0v, a1v >>), math |-> MathObj, log |-> LogFn]
+    [x |-> xv, y |-> yv, z |-> zv, a |-> TupV(<< a0v, a1v >>), math |-> MathObj, log |-> LogFn,
+     f |-> [k |-> "fn", name |-> "f"], o1 |-> [k |-> "obj", name |-> "o1"]]
 Envs == <<
   Pt(FracV(1, 2),  FracV(2, 1),  FracV(-1, 1), FracV(2, 1),  FracV(1, 2)),
   Pt(FracV(2, 1),  FracV(1, 2),  FracV(3, 1),  FracV(-1, 1), FracV(2, 1)),
@@ -74,7 +77,17 @@ MapSeq(n, F(_)) == LET RECURSIVE Go(_)
 
 SameTree(e, v) == e.t = v.t /\ e = v
 \* the children differentiation looks at (not the function of a call)
-DKids(e) == IF e.t = "Call" THEN e.c ELSE Kids(e)
+DKids(e) == IF e.t = "Call" THEN e.c
+            ELSE IF e.t = "CallKw" THEN e.c \o [i \in 1..Len(e.kw) |-> e.kw[i].e]
+            ELSE Kids(e)
+
+\* Round 4.  Node kinds the statement does not list as differentiable ("foreign" kinds): a call
+\* with keyword arguments (CallKw), an attribute lookup that is not the function of a call (Look),
+\* and the leaves that denote no number at all - primitives.FunctionSymbol() and primitives.NaN(),
+\* carried across the JSON boundary as variables with the reserved names below (Expr.tla has no
+\* shape for them; harness/c10.py builds the real objects).
+OpaqueNames == { "<FunctionSymbol>", "<NaN>" }
+IsOpaque(e) == e.t = "Var" /\ e.name \in OpaqueNames
 RECURSIVE Occurs(_, _)
 Occurs(v, e) == SameTree(e, v) \/ \E i \in 1..Len(DKids(e)) : Occurs(v, DKids(e)[i])
 
@@ -183,6 +196,29 @@ DEval(e, env, v) ==
                                ~(IsNum(l) /\ IsNum(r)) \/ NumCmp3(l, r) = 0
                  IN IF onEdge THEN DN(br.val, Undef) ELSE br
       [] e.t = "CSE" -> DEval(e.a, env, v)
+      \* (round 4) a call with keyword arguments denotes what Eval says: an elementary function of
+      \* the table takes no keywords (with none it is the plain call); a table function of the
+      \* environment is  base + sum w_i a_i + sum w_k v_k  (FnApply), so its partial derivative is
+      \* sum w_i a_i' + sum w_k v_k'
+      [] e.t = "CallKw" ->
+            LET fv == Eval(e.f, env) IN
+            IF fv.k # "fn" THEN OutOfModel
+            ELSE IF fv.name \in MathFns THEN
+                (IF Len(e.kw) = 0 THEN DEval(Call(e.f, e.c), env, v) ELSE DN(Err("TypeError"), Undef))
+            ELSE LET ps == DSeq(e.c, env, v)
+                     KF(i) == DEval(e.kw[i].e, env, v)
+                     ks == MapSeq(Len(e.kw), KF)
+                     val == Rat(Eval(e, env))
+                     W(n) == FracV(n, 1)
+                     RECURSIVE GoP(_, _), GoK(_, _)
+                     GoP(i, acc) == IF i > Len(ps) \/ i > 3 THEN acc
+                                    ELSE GoP(i + 1, Add2(acc, Mul2(W(FnPosW(fv.name)[i]), ps[i].der)))
+                     GoK(i, acc) == IF i > Len(ks) THEN acc
+                                    ELSE GoK(i + 1, Add2(acc, Mul2(W(FnKwW(fv.name, e.kw[i].name)), ks[i].der)))
+                 IN DN(val, GoK(1, GoP(1, Zero)))
+      \* an attribute of an object of the environment is a constant; nothing else has attributes
+      [] e.t = "Look" -> IF Occurs(v, e) THEN DN(Rat(Eval(e, env)), Undef)
+                         ELSE DN(Rat(Eval(e, env)), Zero)
       [] OTHER -> OutOfModel
 
 Defined(d) == IsNum(d.val) /\ IsNum(d.der)
@@ -201,7 +237,21 @@ MustRefuse(e, ns) ==
       [] e.t \in {"Sum", "Product"} -> \E i \in 1..Len(e.c) : MustRefuse(e.c[i], ns)
       [] e.t \in {"Quotient", "Power"} -> MustRefuse(e.a, ns) \/ MustRefuse(e.b, ns)
       [] e.t = "CSE" -> MustRefuse(e.a, ns)
+      [] e.t = "CallKw" -> \E i \in 1..Len(DKids(e)) : MustRefuse(DKids(e)[i], ns)
       [] OTHER -> FALSE
+
+\* (round 4) a foreign node kind is differentiated (conditions of If nodes and the function of a
+\* call are not).  The statement does not promise a derivative for such an input, only that it is
+\* "never differentiated to something wrong": a refusal is always accepted; a returned tree is
+\* judged against the meaning the model gives the input, and where it gives none (NowhereDefined)
+\* a refusal is the only accepted outcome.
+RECURSIVE Foreign(_)
+Foreign(e) ==
+    CASE e.t \in {"CallKw", "Look"} -> TRUE
+      [] e.t = "Var" -> IsOpaque(e)
+      [] e.t = "If" -> Foreign(e.th) \/ Foreign(e.el)
+      [] e.t \in {"Const", "Sub"} -> FALSE
+      [] OTHER -> \E i \in 1..Len(DKids(e)) : Foreign(DKids(e)[i])
 
 \* inside the fragment the statement speaks about
 RECURSIVE InFragment(_)
@@ -214,6 +264,8 @@ InFragment(e) ==
       [] e.t = "Call" -> Len(e.c) > 0 /\ \A i \in 1..Len(e.c) : InFragment(e.c[i])
       [] e.t = "If" -> InFragment(e.th) /\ InFragment(e.el)
       [] e.t = "CSE" -> InFragment(e.a)
+      [] e.t = "CallKw" -> Len(DKids(e)) > 0 /\ \A i \in 1..Len(DKids(e)) : InFragment(DKids(e)[i])
+      [] e.t = "Look" -> InFragment(e.a)
       [] OTHER -> FALSE
 
 (***************************************************************************)
@@ -297,6 +349,10 @@ RecX(e, v, cx) ==
     LET ns == cx.ns
         Rc(ee, vv, nn) == RecX(ee, vv, cx) IN
     CASE e.t = "Const" -> KI(0)
+      \* no mapper method of DifferentiationMapper: the class-hierarchy fall-back of the base Mapper
+      \* raises.  Seeded design error "leaf_fallback_zero": the fall-back answers 0 ("a leaf")
+      [] e.t \in {"CallKw", "Look"} \/ IsOpaque(e) ->
+            IF Bug = "leaf_fallback_zero" THEN KI(0) ELSE Raise("NotImplementedError")
       [] e.t \in {"Var", "Sub"} -> IF SameTree(e, v) THEN KI(1) ELSE KI(0)
       [] e.t = "Call" ->
             LET F(i) == LET fm == FunctionMap(i, e.f, e.c, ns) IN
@@ -384,6 +440,10 @@ Predicted(e, v, ns) == AsOut(DiffRules(e, v, ns))
 (* The judgement (shared by the model check and the trace judge)           *)
 (***************************************************************************)
 IsRefusal(out) == out.r = "err" /\ out.v.e \in {"ValueError", "RuntimeError"}
+\* the mapper's "I have no rule for this node kind" is a refusal of an input with a foreign node
+IsRefusalOf(e, out) ==
+    \/ IsRefusal(out)
+    \/ out.r = "err" /\ Foreign(e) /\ out.v.e \in {"NotImplementedError", "UnsupportedExpressionError"}
 
 \* The model's log is total, the real one is not: evaluating the returned tree at this point
 \* applies log (the variable `log` of the general power rule, or math.log) to a non-positive
@@ -430,11 +490,14 @@ NowhereDefined(e, v) == \A i \in 1..Len(Envs) : ~IsNum(DEval(e, Envs[i], v).val)
 JudgeOut(e, v, ns, out) ==
     IF out.r = "unser" \/ ~InFragment(e) THEN [v |-> "SKIP", env |-> 0, np |-> 0]
     ELSE IF MustRefuse(e, ns) THEN
-        (IF IsRefusal(out) THEN [v |-> "OK", env |-> 0, np |-> 0]
+        (IF IsRefusalOf(e, out) THEN [v |-> "OK", env |-> 0, np |-> 0]
          \* an exception of another class is a crash, not a refusal (same clause as below)
          ELSE IF out.r = "err" THEN [v |-> "raised", env |-> 0, np |-> 0]
          ELSE [v |-> "not-refused", env |-> 0, np |-> 0])
+    ELSE IF Foreign(e) /\ IsRefusalOf(e, out) THEN [v |-> "OK", env |-> 0, np |-> 0]
     ELSE IF out.r = "err" THEN [v |-> IF NowhereDefined(e, v) THEN "SKIP" ELSE "raised", env |-> 0, np |-> 0]
+    \* a derivative of something that denotes nothing
+    ELSE IF Foreign(e) /\ NowhereDefined(e, v) THEN [v |-> "not-refused", env |-> 0, np |-> 0]
     ELSE JudgeTree(e, v, out.e)
 
 \* attribution features of the input (computed by the spec, grouped by the harness)
@@ -450,7 +513,10 @@ Features(e, v) ==
             \cup (IF Dev_WrappedConstantExponent(e, v) THEN {"Power:wrapped-constant-exponent"} ELSE {})
        [] e.t = "Quotient" ->
             { "Quotient:" \o (IF Occurs(v, e.a) THEN "f" ELSE "c") \o (IF Occurs(v, e.b) THEN "f" ELSE "c") }
-       [] e.t \in {"Var", "Const"} -> {}
+       [] e.t = "Var" -> IF IsOpaque(e) THEN { "leaf:" \o e.name } ELSE {}
+       [] e.t = "Const" -> {}
+       [] e.t = "CallKw" -> { "CallKw:" \o (IF Occurs(v, e) THEN "f" ELSE "c") }
+       [] e.t = "Look" -> { "Look:" \o (IF Occurs(v, e) THEN "f" ELSE "c") }
        [] OTHER -> { e.t })
     \cup UNION { Features(DKids(e)[i], v) : i \in 1..Len(DKids(e)) }
 SetToSeq(S) == LET RECURSIVE Go(_) Go(T) == IF T = {} THEN << >>
